@@ -125,6 +125,23 @@ func (x *Exec) special(s *State, fr *Frame, fn *types.Func, name string, recv Va
 			unsup("crc of opaque bytes")
 		}
 		return &Scalar{T: x.ctx.UF("crc$update", BV(32), recv.(*Scalar).T, x.ctx.Share(x.inner(s, "uint8", BV(8), b.Rgn)), b.Off, b.Len)}, true
+	case (name == "bytes.HasPrefix" || name == "bytes.CutPrefix") && !x.opaque:
+		a, ok1 := args[0].(*SliceV)
+		p, ok2 := args[1].(*SliceV)
+		if !ok1 || !ok2 {
+			unsup("%s on non-slices", name)
+		}
+		x.note("trusted", "bytes.HasPrefix/CutPrefix: s starts with prefix; CutPrefix returns s[len(prefix):] then, s otherwise")
+		head := &SliceV{Rgn: a.Rgn, Off: a.Off, Len: p.Len, Cap: p.Len}
+		has := x.ctx.Share(And(Sle(p.Len, a.Len), x.bytesEqual(s, head, p)))
+		if name == "bytes.HasPrefix" {
+			return &Scalar{T: has}, true
+		}
+		// a quantified condition must not end up in an ite: name it
+		q := x.ctx.Fresh("hasprefix", SBool)
+		s.facts = append(s.facts, Eq(q, has))
+		rest := &SliceV{Rgn: a.Rgn, Off: x.ctx.Share(Add64(a.Off, p.Len)), Len: x.ctx.Share(Sub64(a.Len, p.Len)), Cap: x.ctx.Share(Sub64(a.Cap, p.Len))}
+		return &TupleV{V: []Value{x.mergeValue(q, rest, a), &Scalar{T: q}}}, true
 	case name == "bytes.Equal":
 		if x.opaque {
 			a, b := scalarArg(args, 0), scalarArg(args, 1)
